@@ -12,11 +12,12 @@ CFG = {
         "Leptos.Action.C17_value_after_completion",
         "Leptos.Action.C17_input_cleared_when_idle",
         "Leptos.Action.C17_input_latest_while_pending",
-        "Leptos.Action.C17_abort_race_witness",
-        "Leptos.Action.C17_abort_before_ready_never_writes_full_false",
-        "Leptos.Action.C17_abort_before_ready_never_writes_partial",
-        "Leptos.Action.raceFree_of_biased",
+        "Leptos.Action.C17_abort_before_ready_never_writes",
+        "Leptos.Action.C17_visible_abort_wins",
         "Leptos.Action.C17_abortFirst_meaning",
+        "Leptos.Action.C17_abort_race_witness",
+        "Leptos.Action.C17_abort_before_ready_never_writes_old_false",
+        "Leptos.Action.stepOld_abort_first",
         "Leptos.Action.M.inv_run",
         "Leptos.Action.C17_multi_independent",
         "Leptos.Action.C17_multi_records",
@@ -34,17 +35,18 @@ CFG = {
             "executor. Exhaustive small scope (independent of the seed, on every run): for 1, 2 and 3 overlapping dispatches every "
             "assignment of a script (complete | abort | abort-then-ready | ready-then-abort | drop-handle-then-ready | never) to each "
             "dispatch x every interleaving of the scripts' events x four polling modes (each event processed at once; nothing polled "
-            "until the end FIFO with races to the abort arm; LIFO with races to the future's arm; tasks parked first then races to the "
-            "future's arm), 4 overlapping dispatches with complete|abort scripts in every order and mode, `clear` at every position for 1-2 dispatches, the analogous enumeration for multi-actions (cancel / "
+            "until the end, FIFO; nothing polled until the end, LIFO; tasks parked first then polled one by one - in the last three a poll "
+            "may find the abort message and the result together and the abort arm must win), 4 overlapping dispatches with complete|abort scripts in every order and mode, `clear` at every position for 1-2 dispatches, the analogous enumeration for multi-actions (cancel / "
             "dispatch_sync) - rotating over ArcAction/Action x dispatch/dispatch_local/new_unsync and ArcMultiAction/MultiAction; "
             "then n seeded random histories (up to 8 dispatches, up to 4 overlapping). The whole scope is not declared exhaustive "
             "because the random part is sampled. distinct = distinct op sequence; non-trivial = the case has at least one tag other "
-            "than its kind / `plain` (overlap, abort-before-ready, abort-after-ready, race-*, drop-handle, clear*, out-of-order, "
+            "than its kind / `plain` (overlap, abort-before-ready, abort-after-ready, race-abort-first, race-ready-first, drop-handle, clear*, out-of-order, "
             "cancel*, dsync, multi)",
     "trusted": [
         "futures-channel oneshot (Sender::send / drop wake the receiver's task; a receiver whose sender was dropped without a value "
-        "is_terminated, so select! skips it) and futures::select! (polls its non-terminated arms in a random order) - modelled, and "
-        "validated by the differential run; the choice bit of a race is realised on the real select! by re-running the case",
+        "is_terminated, so select_biased! skips it) and futures::select_biased! (polls its non-terminated arms in source order) - modelled, and "
+        "validated by the differential run; a regression to the unbiased select! is detected by the harness's own future "
+        "(it completes although the abort arm was ready) on the corpus cases abort-first-<kind> and every exhaustive race case",
         "reactive_graph signals (ArcRwSignal update/get_untracked, Memo over in_flight) and the arena (ArenaItem) - exercised, not modelled beyond read/write",
         "hx_common::sched (the controlled executor) and any_spawner's custom-executor hook",
     ],
@@ -58,13 +60,13 @@ CFG = {
                     "`dispatched` is never written by the code (is_latest is always true) - the model keeps the field and proves it irrelevant"],
     "manifest": {
         "category": "proof",
-        "text": "Lean 4 invariant proofs over arbitrary event lists (all histories of dispatch/abort/drop/ready/clear, all polling orders, both outcomes of "
-                "the unbiased select!) for pending / version / value / input and for the independence of multi-action records; the clause "
-                "'a dispatch aborted before its future completed never writes' is refuted by a kernel-checked witness (F-C17-1, select! is unbiased) "
-                "and proved for every race-free history; tied to the code by a differential run of the real ArcAction/Action/ArcMultiAction/MultiAction "
+        "text": "Lean 4 invariant proofs over arbitrary event lists (all histories of dispatch/abort/drop/ready/clear, all polling orders) "
+                "for pending / version / value / input, for 'a dispatch aborted before its future completed never writes' (full, after the repair "
+                "of F-C17-1: select_biased! with the abort arm first; the old unbiased select! is kept as pollTaskOld with the kernel-checked "
+                "abort-race witness as a regression theorem) and for the independence of multi-action records; tied to the code by a differential run of the real ArcAction/Action/ArcMultiAction/MultiAction "
                 "on a controlled executor against the compiled model, exhaustive for <= 3 overlapping dispatches",
         "design_ref": "DESIGN.md §7 C17",
         "note": "model hand-written, faithfulness checked by correspondence; ServerAction wrapper not driven",
-        "technique": "Lean 4 proof (state-machine invariants) + refutation witness + differential correspondence under all schedules",
+        "technique": "Lean 4 proof (state-machine invariants) + regression witness for the repaired defect + differential correspondence under all schedules",
     },
 }
